@@ -126,7 +126,7 @@ class C17Machine(Machine):
     def plan(self, tier):
         if tier == 'quick':
             return {'runs': 12000, 'budget_s': 100, 'batch': 100}
-        return {'runs': 900000, 'budget_s': 1500, 'batch': 300}
+        return {'runs': 4000000, 'budget_s': 1500, 'batch': 300}
 
     def generate(self, rng, tier, index):
         # mostly few channels; sometimes two-digit parameter numbers ($P10V, BD$WORD22, CytekP11G)
